@@ -7,6 +7,8 @@ import (
 
 	"github.com/lni/dragonboat/v4/client"
 	"github.com/lni/dragonboat/v4/config"
+	"github.com/lni/dragonboat/v4/internal/logdb"
+	"github.com/lni/dragonboat/v4/internal/raft"
 	"github.com/lni/dragonboat/v4/internal/rsm"
 	pb "github.com/lni/dragonboat/v4/raftpb"
 	sm "github.com/lni/dragonboat/v4/statemachine"
@@ -20,15 +22,19 @@ import (
 // (VerifTakeReads / VerifAddReads).
 
 // VerifC12 is one node's set of pending request tables wired as newNode does.
+// The tables are the fields of a real *node that also has a raft peer (one
+// replica of a three member shard that never hears from the other two) and a
+// quiesce state, so that the real node.tick can be driven.
 type VerifC12 struct {
 	Pool  *sync.Pool
+	n     *node
 	pq    *entryQueue
 	rq    *readIndexQueue
-	pp    pendingProposal
-	pr    pendingReadIndex
-	pc    pendingConfigChange
-	psn   pendingSnapshot
-	pl    pendingRaftLogQuery
+	pp    *pendingProposal
+	pr    *pendingReadIndex
+	pc    *pendingConfigChange
+	psn   *pendingSnapshot
+	pl    *pendingRaftLogQuery
 	ccC   chan configChangeRequest
 	ssC   chan rsm.SSRequest
 	taken []*RequestState
@@ -53,15 +59,73 @@ func NewVerifC12(ps uint64, notifyCommit bool, pqSize uint64, rqSize uint64) *Ve
 	v.rq = newReadIndexQueue(rqSize)
 	v.ccC = make(chan configChangeRequest, 1)
 	v.ssC = make(chan rsm.SSRequest, 1)
+	cfg := config.Config{ShardID: 1, ReplicaID: 1, ElectionRTT: 10, HeartbeatRTT: 1, Quiesce: true}
 	old := pendingProposalShards
 	pendingProposalShards = ps
-	v.pp = newPendingProposal(config.Config{ShardID: 1, ReplicaID: 1}, notifyCommit, p, v.pq)
+	n := &node{
+		shardID:               cfg.ShardID,
+		replicaID:             cfg.ReplicaID,
+		config:                cfg,
+		incomingProposals:     v.pq,
+		incomingReadIndexes:   v.rq,
+		configChangeC:         v.ccC,
+		snapshotC:             v.ssC,
+		pendingProposals:      newPendingProposal(cfg, notifyCommit, p, v.pq),
+		pendingReadIndexes:    newPendingReadIndex(p, v.rq),
+		pendingConfigChange:   newPendingConfigChange(v.ccC, notifyCommit),
+		pendingSnapshot:       newPendingSnapshot(v.ssC),
+		pendingLeaderTransfer: newPendingLeaderTransfer(),
+		pendingRaftLogQuery:   newPendingRaftLogQuery(),
+		notifyCommit:          notifyCommit,
+		// as newNode
+		qs: &quiesceState{
+			electionTick: cfg.ElectionRTT * 2,
+			enabled:      cfg.Quiesce,
+			shardID:      cfg.ShardID,
+			replicaID:    cfg.ReplicaID,
+		},
+	}
 	pendingProposalShards = old
-	v.pr = newPendingReadIndex(p, v.rq)
-	v.pc = newPendingConfigChange(v.ccC, notifyCommit)
-	v.psn = newPendingSnapshot(v.ssC)
-	v.pl = newPendingRaftLogQuery()
+	n.raftEvents = newRaftEventListener(cfg.ShardID, cfg.ReplicaID, false, newLeaderInfoQueue())
+	n.logReader = logdb.NewLogReader(cfg.ShardID, cfg.ReplicaID, nil)
+	n.p = raft.Launch(cfg, n.logReader, n.raftEvents, []raft.PeerAddress{
+		{ReplicaID: 1, Address: "a1"}, {ReplicaID: 2, Address: "a2"}, {ReplicaID: 3, Address: "a3"}}, true, true)
+	v.n = n
+	v.pp = &n.pendingProposals
+	v.pr = &n.pendingReadIndexes
+	v.pc = &n.pendingConfigChange
+	v.psn = &n.pendingSnapshot
+	v.pl = &n.pendingRaftLogQuery
 	return v
+}
+
+// NodeTick is the real node.tick(tick): raft tick (quiesced or not) and the
+// logical clocks of the request tables.
+func (v *VerifC12) NodeTick(tick uint64) error { return v.n.tick(tick) }
+
+// SetQuiesced puts the shard into / takes it out of the quiesced state with the
+// quiesceState's own transitions (enterQuiesce is what quiesceState.tick calls
+// after 10 idle election timeouts, exitQuiesce what record() calls on activity).
+func (v *VerifC12) SetQuiesced(q bool) {
+	if q {
+		if !v.n.qs.quiesced() {
+			v.n.qs.tick()
+			v.n.qs.enterQuiesce()
+		}
+	} else if v.n.qs.quiesced() {
+		v.n.qs.exitQuiesce()
+	}
+}
+func (v *VerifC12) Quiesced() bool { return v.n.qs.quiesced() }
+
+// Clocks returns the logical clock of every request table that has one:
+// snapshot, proposals (every shard), read index, config change.
+func (v *VerifC12) Clocks() []uint64 {
+	r := []uint64{v.psn.getTick()}
+	for _, s := range v.pp.shards {
+		r = append(r, s.getTick())
+	}
+	return append(r, v.pr.getTick(), v.pc.getTick())
 }
 
 // VerifC12ErrCode maps the request errors to small integers:
